@@ -61,6 +61,9 @@ struct Gen {
     weights: Vec<u32>,
     max_vectors: usize,
     max_closures: usize,
+    hook_defined: bool,
+    callers: Vec<String>,
+    rec_made: u32,
 }
 
 const HELPERS: &[(&str, &str)] = &[
@@ -123,6 +126,8 @@ const HELPERS: &[(&str, &str)] = &[
     ),
     // an internal definition that carries the name of a parameter: one binding, not two
     ("make-pctr", "(define (make-pctr n) (define n (+ n 10)) (lambda () (set! n (+ n 1)) n))"),
+    // a closure whose frame stays alive and that calls whatever the global `hook` holds NOW
+    ("make-caller", "(define (make-caller k) (lambda () (+ k (hook))))"),
     ("make-bctr", "(define (make-bctr k) (begin (define n k) (lambda () (set! n (+ n 1)) n)))"),
     (
         "make-cctr",
@@ -1177,6 +1182,69 @@ impl Gen {
                 self.emit(list(vec![sym("define"), sym(&c), sx]), &format!("mk-counter-{}", which), vec![c], true);
                 true
             }
+            42 => {
+                // a procedure-valued global that long-lived closures call: after it is assigned
+                // (from the top level) they call the new procedure
+                let counters = self.names_with(Role::Counter);
+                if counters.is_empty() {
+                    return false;
+                }
+                if !self.hook_defined {
+                    let c = self.rng.pick(&counters).clone();
+                    self.emit(list(vec![sym("define"), sym("hook"), sym(&c)]), "define-procedure-hook", vec![c, "hook".into()], false);
+                    self.hook_defined = true;
+                    self.need("make-caller");
+                    let name = self.fresh("caller");
+                    let k = self.small_lit_pure();
+                    self.emit(list(vec![sym("define"), sym(&name), call("make-caller", vec![int(k)])]), "mk-caller-of-hook", vec![name.clone()], false);
+                    self.callers.push(name);
+                    return true;
+                }
+                match self.rng.upto(4) {
+                    0 => {
+                        let c = self.rng.pick(&counters).clone();
+                        self.emit(list(vec![sym("set!"), sym("hook"), sym(&c)]), "repoint-procedure-hook", vec![c, "hook".into()], true);
+                    }
+                    1 if self.callers.len() < 3 => {
+                        self.need("make-caller");
+                        let name = self.fresh("caller");
+                        let k = self.small_lit_pure();
+                        self.emit(list(vec![sym("define"), sym(&name), call("make-caller", vec![int(k)])]), "mk-caller-of-hook", vec![name.clone()], false);
+                        self.callers.push(name);
+                    }
+                    _ => {
+                        let name = self.rng.pick(&self.callers.clone()).clone();
+                        self.emit(list(vec![sym(&name)]), "call-through-hook", vec![name, "hook".into()], true);
+                    }
+                }
+                true
+            }
+            43 => {
+                // a procedure bound by define is reached through its NAME each time: assigning
+                // the name changes what its own recursive calls and its other aliases' calls reach
+                if self.rec_made >= 2 {
+                    return false;
+                }
+                self.rec_made += 1;
+                let n = self.rec_made;
+                let k = self.small_lit_pure();
+                if self.rng.chance(1, 2) {
+                    let rec = format!("rec{}", n);
+                    let old = format!("oldrec{}", n);
+                    self.emit_text(&format!("(define ({r} n) (if (= n 0) 0 (+ 1 ({r} (- n 1)))))", r = rec), "define-recursive");
+                    self.emit_text(&format!("(define {} {})", old, rec), "alias-recursive");
+                    self.emit_text(&format!("({} 3)", old), "call-recursive-alias");
+                    self.emit_text(&format!("(set! {} (lambda (n) {}))", rec, k), "assign-recursive-name");
+                    self.emit_text(&format!("({} 3)", old), "call-recursive-alias");
+                    self.emit_text(&format!("({} 3)", rec), "call-recursive-name");
+                } else {
+                    let once = format!("once{}", n);
+                    self.emit_text(&format!("(define ({o}) (set! {o} (lambda () {k})) 'first)", o = once, k = k), "define-self-replacing");
+                    self.emit_text(&format!("({})", once), "call-self-replacing");
+                    self.emit_text(&format!("({})", once), "call-self-replacing");
+                }
+                true
+            }
             41 => {
                 // a global integer defined again: still one binding, which later assignments reach
                 let Some(g) = self.pick_name(Role::Int) else { return false };
@@ -2045,7 +2113,7 @@ pub fn generate_a(seed: u64, quick: bool, faults: bool) -> Value {
     let hash_seed = rng.next_u64() | 1;
     // swarm configuration
     let steps = if quick { rng.range(10, 40) } else { rng.range(10, 60) } as usize;
-    let nops = 42;
+    let nops = 44;
     let mut weights: Vec<u32> = (0..nops).map(|_| if rng.chance(1, 4) { 0 } else { rng.range(1, 6) as u32 }).collect();
     if weights.iter().all(|w| *w == 0) {
         weights[0] = 1;
@@ -2076,6 +2144,9 @@ pub fn generate_a(seed: u64, quick: bool, faults: bool) -> Value {
         weights,
         max_vectors,
         max_closures,
+        hook_defined: false,
+        callers: vec![],
+        rec_made: 0,
     };
     // where the fault transactions go
     let mut fault_at: BTreeSet<usize> = BTreeSet::new();
